@@ -4,6 +4,12 @@ from concurrent.futures import ThreadPoolExecutor
 
 import vcheck as V
 
+META = {
+    "engine": "cfb",
+    "technique": "Coq proof: hand-unrolled CFB = textbook CFB for every length and any block function (induction on groups + finite case split); toy-cipher differential replay over all 1501 lengths; real ciphers vs crypto/cipher",
+    "level_text": "Machine-checked: the transcriptions of encrypt8/16 and decrypt8/16 (groups of eight blocks, fall-through switch over 0..7 left-over blocks, tail xor, two-register alternation, one memory model for in-place and out-of-place) equal textbook full-block CFB with the package IV for EVERY length, ANY block function and block size 8 or 16; decrypt(encrypt(x)) = x; aliased = non-aliased; salsa20/xor/none guard logic round-trips (xor within its mtuLimit pad); the AEAD Seal capacity guard keeps the append inside the buffer. Tied to crypt.go by running the real functions with a toy cipher.Block that is also defined in Gallina, for all lengths 0..1500 in and out of place, byte for byte against the extracted model; every real cipher is checked against Go's crypto/cipher CFB with the IV regenerated from the source, incl. 4 goroutines sharing one BlockCrypt.",
+    "level_note": "Trusted: Coq kernel; extraction (ExtrOcamlBasic only) and ml/cfb_driver.ml; the overlay harness; the real block ciphers, salsa20 keystream, pbkdf2 pad and AES-GCM are library code (open(seal(x)) = x is monitored, not proved); initialVector and mtuLimit are regenerated from the source.",
+}
 FILES = ["cfb_test.go"]
 OBLIGATIONS = ["c08_enc_is_cfb", "c08_dec_is_cfb", "c08_roundtrip", "c08_inplace", "c08_longer_dst",
                "c08_stream_roundtrip", "c08_stream_inplace", "c08_aead_inplace"]
